@@ -321,6 +321,32 @@ fn sweep_parquet(ctx: &Ctx) -> R {
     sweep_fmt(ctx, &PqFmt { wl, cfg, flush_after: vec![] }, "parquet.reader", 2500, 3)
 }
 
+/// Dictionary-preserving reads: every column is `Dictionary<K, byte array>` with a narrow or wide key type and
+/// dictionary-encoded pages, so that the index stream (RLE / bit-packed runs) and the key conversion are in
+/// front of every damaged byte.
+fn sweep_parquet_dict(ctx: &Ctx) -> R {
+    use arrow_schema::{DataType, Field, Schema};
+    let p = pq_profile_basic(ctx);
+    let ncols = 1 + ctx.below(2, "c08.dict.cols");
+    let fields: Vec<Field> = (0..ncols)
+        .map(|i| {
+            let k = ctx.pick(&[DataType::Int8, DataType::Int16, DataType::UInt8, DataType::Int32, DataType::UInt16], "c08.dict.key").clone();
+            let v = ctx.pick(&[DataType::Utf8, DataType::Binary, DataType::LargeUtf8, DataType::LargeBinary], "c08.dict.val").clone();
+            Field::new(format!("c{i}"), DataType::Dictionary(Box::new(k), Box::new(v)), ctx.chance(3, 4, "c08.dict.nullable"))
+        })
+        .collect();
+    let schema = Arc::new(Schema::new(fields));
+    let rows = 1 + ctx.below(24, "c08.dict.rows");
+    let (lb, rb) = gen::gen_batch(ctx, &schema, rows, &p);
+    let wl = checks::Workload { schema, batches: vec![rb], logical: vec![lb] };
+    let mut cfg = PqCfg::gen(ctx);
+    cfg.bloom = false;
+    cfg.dict = true;
+    cfg.enc_salt = 0;
+    cfg.page_index = false;
+    sweep_fmt(ctx, &PqFmt { wl, cfg, flush_after: vec![] }, "parquet.reader", 2500, 3)
+}
+
 fn sweep_avro(ctx: &Ctx) -> R {
     let p = avro_profile(ctx);
     let f = AvroFmt::new(gen_workload(ctx, &p, 2, 6, false), AvroFmt::gen_cfg(ctx, true));
@@ -698,6 +724,7 @@ fn main() {
             Scenario { name: "variant", runs_quick: 1500, runs_thorough: 60000, f: variant },
             Scenario { name: "sweep_ipc_stream", runs_quick: 96, runs_thorough: 4000, f: sweep_ipc_stream },
             Scenario { name: "sweep_parquet", runs_quick: 240, runs_thorough: 8000, f: sweep_parquet },
+            Scenario { name: "sweep_parquet_dict", runs_quick: 80, runs_thorough: 3000, f: sweep_parquet_dict },
             Scenario { name: "sweep_avro", runs_quick: 120, runs_thorough: 4000, f: sweep_avro },
         ],
     );
